@@ -27,7 +27,7 @@ func init() {
 	hx.Register(&hx.Prop{
 		ID:    "C16",
 		Level: "exploration",
-		Rule: "full product of producer configurations generated with the openssl CLI at check time: tool {smime, cms} x S/MIME capabilities {default, -nosmimecap} x {detached, -nodetach} x certificates {included, -nocerts} x extra signed attributes {none, cms -cades} x content {empty, 1, 64, 70000 bytes} x RSA {2048; thorough 3072, 4096} x certificate {short issuer, long multi-RDN issuer with a 20-byte high-bit serial, CA-issued leaf}; " +
+		Rule: "full product of producer configurations generated with the openssl CLI at check time: tool {smime, cms} x S/MIME capabilities {default, -nosmimecap} x {detached, -nodetach} x certificates {included, -nocerts} x extra signed attributes / content type {none, cms -cades, cms -econtent_type <short OID>, cms -econtent_type <14+ octet OID>} x content {empty, 1, 64, 70000 bytes} x RSA {2048; thorough 3072, 4096} x certificate {short issuer, long multi-RDN issuer with a 20-byte high-bit serial, CA-issued leaf}; " +
 			"plus the sbsign / sbvarsign artefacts shipped with the repository (signature files, the signed PE image, six .auth descriptors). " +
 			"oracle: every blob parses; blobs with signed attributes verify against the signer's certificate and not against another certificate nor against one with the same issuer+serial and another key; " +
 			"the attribute block cut out of the blob (re-tagged SET) equals Attributes.Marshal() of the parsed values byte for byte, and is what the RSA signature verifies over (independent check). " +
@@ -213,7 +213,9 @@ func c16Run(c *hx.Ctx, tier, unit string) {
 		}
 		extras := [][]string{nil}
 		if tool == "cms" {
-			extras = append(extras, []string{"-cades"})
+			extras = append(extras, []string{"-cades"},
+				// a content type whose OID is long enough to change the DER order of the signed attributes
+				[]string{"-econtent_type", "1.3.6.1.4.1.99999.1.2.3.4.5.6.7"}, []string{"-econtent_type", "1.2.3"})
 		}
 		for _, cap := range [][]string{nil, {"-nosmimecap"}} {
 			for _, det := range [][]string{nil, {"-nodetach"}} {
